@@ -539,11 +539,11 @@ def quick_families():
     lev = 0
     few = ("k", "i", "a(i)")
     yield family("SC", ["S"], ["inc", "set", "get", "put"], 2, lev, ["top", "loop"],
-                 actual_filter=only(("k", "i", "5", "a(i)", "w%f", "g")))
+                 actual_filter=only(("k", "a(i)", "g")))
     yield family("SC", ["S"], ["inc", "get", "put"], 2, lev, ["twice"],
                  actual_filter=only(("k",)))
     yield family("SC", ["SS"], ["inc", "set", "cpy"], 2, lev, ["top"],
-                 actual_filter=only(("k", "i + 1", "a(i)"), ("k", "i")))
+                 actual_filter=only(("k", "i + 1", "a(i)"), ("i",)))
     yield family("SC", ["SS"], ["inc", "set", "cpy"], 2, lev, ["if"],
                  actual_filter=only(("a(i)", "i + 1"), ("i",)))
     yield family("SC", ["SS"], ["inc", "cpy"], 2, lev, ["loop"],
@@ -552,19 +552,19 @@ def quick_families():
                  actual_filter=only(("k", "i + 1", "a(i)"), ("k", "i")))
     yield family("AR", ["E", "Z", "A", "L"], ARR, 1, lev, ["top"])
     yield family("AR", ["E", "Z", "A", "L"], ARR, 1, lev, ["loop"],
-                 actual_filter=only(("a", "w%d")))
-    yield family("AR", ["E", "Z", "A", "L"], ARR, 1, lev, ["twice"],
+                 actual_filter=only(("w%d",)))
+    yield family("AR", ["E", "Z"], ARR, 1, lev, ["twice"],
                  actual_filter=only(("b",)))
     yield family("AR", ["E", "Z", "A", "L"], ["el", "loop", "whole"], 2, lev,
                  ["top"], minlen=2, actual_filter=only(("a(2:m)", "w%d")))
     yield family("AS", ["ES", "ZS", "AS", "LS"], ARRS, 1, lev, ["top"],
-                 actual_filter=only(("a", "b", "b(1:n)", "w%d"), few))
+                 actual_filter=only(("a", "b(1:n)", "w%d"), few))
     yield family("AS", ["ES", "ZS", "AS", "LS"], ARRS, 1, lev, ["loop"],
                  actual_filter=only(("a",), few))
     yield family("AS", ["ES", "ZS", "AS"], ARRS + ["inc"], 2, lev, ["top"],
                  minlen=2, body_filter=lambda b: b.count("inc") == 1,
                  actual_filter=only(("a", "b(1:n)"), ("i", "a(i)")))
-    yield family("A2", ["ZA", "AE"], ["el", "whole"], 2, lev, ["top"],
+    yield family("A2", ["ZA"], ["el", "whole"], 2, lev, ["top"],
                  actual_filter=only(("a", "b"), ("b", "w%d")))
     yield family("M2", ["M", "N"], MAT, 1, lev, ["top", "loop", "twice"])
     yield family("MS", ["MS", "NS"], ["midx"], 1, lev, ["top", "loop"],
@@ -572,11 +572,15 @@ def quick_families():
     yield family("ST", ["T"], STRU, 2, lev, ["top", "loop"])
     yield family("TS", ["TS"], ["tidx"], 1, lev, ["top", "loop"],
                  actual_filter=only(None, few))
-    yield family("NM", ["S"], ["get", "put", "inc"], 2, lev, ["top", "loop", "if"],
+    yield family("NM", ["S"], ["get", "put", "inc"], 2, lev, ["top"],
                  namings=CLASH, actual_filter=only(("k", "a(i)")))
+    yield family("NM", ["S"], ["get", "put", "inc"], 2, lev, ["loop"],
+                 namings=CLASH, actual_filter=only(("k",)))
+    yield family("NM", ["S"], ["get", "put"], 2, lev, ["if"], minlen=2,
+                 namings=CLASH, actual_filter=only(("k",)))
     yield family("NM", ["SS"], ["cpy", "inc"], 2, lev, ["top"], namings=["N5"],
                  actual_filter=only(("i", "a(i)"), ("k", "i")))
-    yield family("NM", ["E", "A"], ["loop", "el"], 1, lev, ["top", "loop", "twice"],
+    yield family("NM", ["E", "A"], ["loop", "el"], 1, lev, ["top", "twice"],
                  namings=CLASH, actual_filter=only(("a", "b(1:n)")))
     yield family("NM", ["M"], ["mloop"], 1, lev, ["top", "loop"], namings=CLASH)
     yield family("RT", ["S", "A"], ["inc", "set", "el", "loop"], 2, lev,
@@ -585,9 +589,11 @@ def quick_families():
     yield family("GM", ["S"], ["gmod", "inc"], 2, lev, ["top"],
                  body_filter=lambda b: "gmod" in b,
                  actual_filter=only(("k", "g")))
-    yield family("FN", ["S"], ["inc", "get", "put"], 2, lev, FUN,
-                 namings=["N0", "N1", "N5"],
-                 actual_filter=only(("k", "i + 1", "a(i)")))
+    yield family("FN", ["S"], ["inc", "get", "put"], 2, lev,
+                 ["fexpr", "floop", "ftwice"], namings=["N0", "N1", "N5"],
+                 actual_filter=only(("k", "a(i)")))
+    yield family("FN", ["S"], ["get"], 1, lev, FUN,
+                 actual_filter=only(("i + 1", "5")))
     yield family("FN", ["S"], ["inc", "get"], 1, lev, ["fexpr", "floop"],
                  rets=["R1"], actual_filter=only(("k", "a(i)")))
     yield family("FN", ["SS"], ["inc", "cpy"], 1, lev, FUN,
